@@ -3,15 +3,20 @@ package main
 // Guard conditions on timestamps and sums.
 //
 // For each function listed in guardSpecs, every `if` / `else if` condition of its body (nested ones included, in
-// source order) whose leaves are all INTEGER values of the function — the variables and zero-argument calls named in
-// the spec, integer literals — is translated into a Bool over Int64 / UInt64 (Go's wrap-around arithmetic), together
-// with the integer assignments it depends on (`x := a + b` becomes a `let`).  The result is one Lean definition per
-// function returning the LIST of these conditions; the theorems in Core/Props/Cguards.lean state, for the whole list,
-// which conditions of the model they are.  A changed operator, operand or bound changes the definition and the
-// theorem no longer checks; a condition that starts mentioning anything else drops out of the list and the theorem
-// (stated about the whole list) no longer type-checks or no longer holds; an equivalent rewrite (`b >= a` for
-// `a <= b`, operands swapped) still proves.  Conditions over other things (errors, strings, flags, nil) are not
-// arithmetic and are left to the source skeleton and the correspondence.
+// source order; goroutine bodies excluded) whose leaves are all INTEGER values of the function is translated into a
+// Bool over Int64 / UInt64 / Int (Go's wrap-around arithmetic for the sized types; `int` values built from `len` are
+// unbounded, `/` is truncated division).  The integer values are found, not listed: parameters and `var`
+// declarations of type int64 / uint64 / int, variables whose only definition is an integer expression (these become
+// `let`s), and the zero-argument reads and `len(…)` calls named in the spec (the "atoms": API names, not locals).  A
+// variable that is re-assigned, accumulated or carried through a loop is an INPUT of the conditions that read it.
+// The Lean parameters are positional — inputs in order of first use, then the atoms in the spec's order — so renaming a
+// local changes nothing that the theorems see.  The result is one Lean definition per function returning the LIST of
+// these conditions; the theorems in Core/Props/Cguards*.lean and C06guards.lean state, for the whole list, which
+// conditions of the model they are.  A changed operator, operand or bound changes the definition and the theorem no
+// longer checks; a condition that starts mentioning anything else drops out of the list and the theorem (stated about
+// the whole list) no longer type-checks or no longer holds; an equivalent rewrite (`b >= a` for `a <= b`, operands
+// swapped, a renamed or inlined local) still proves.  Conditions over other things (errors, strings, flags, nil) are
+// not arithmetic and are left to the source skeleton and the correspondence.
 
 import (
 	"go/ast"
@@ -26,7 +31,6 @@ type gvar struct{ name, typ string }
 
 type gspec struct {
 	file, fn, lean, doc string
-	vars                []gvar          // integer variables (parameters or locals), Lean parameter order
 	atoms               map[string]gvar // zero-argument calls read as integer inputs
 	atomOrder           []string
 }
@@ -34,43 +38,49 @@ type gspec struct {
 var guardSpecs = []gspec{
 	{
 		file: "validatornode/application/verification/blockchain.go", fn: "AddBlock", lean: "addBlockGuards",
-		doc:  "`(*Blockchain).AddBlock`: the integer conditions it tests (the not-after-tip refusal)",
-		vars: []gvar{{"timestamp", "Int64"}},
-		atoms: map[string]gvar{"previousBlock.Timestamp": {"previousBlockTimestamp", "Int64"}},
+		doc:       "`(*Blockchain).AddBlock`: the integer conditions it tests (the not-after-tip refusal)",
+		atoms:     map[string]gvar{"previousBlock.Timestamp": {"previousBlockTimestamp", "Int64"}},
 		atomOrder: []string{"previousBlock.Timestamp"},
 	},
 	{
 		file: "validatornode/application/verification/blockchain.go", fn: "verifyBlock", lean: "verifyBlockGuards",
-		doc:  "`(*Blockchain).verifyBlock`: the integer conditions it tests, in source order (block date, transaction window, reward)",
-		vars: []gvar{{"previousBlockTimestamp", "Int64"}, {"timestamp", "Int64"}, {"currentBlockTimestamp", "Int64"}, {"expectedBlockTimestamp", "Int64"},
-			{"reward", "UInt64"}, {"totalTransactionsFees", "UInt64"}},
+		doc: "`(*Blockchain).verifyBlock`: the integer conditions it tests, in source order (block date, transaction window, reward)",
 		atoms: map[string]gvar{"neighborBlock.Timestamp": {"blockTimestamp", "Int64"}, "blockchain.settings.ValidationTimestamp": {"validationTimestamp", "Int64"},
 			"transaction.Timestamp": {"transactionTimestamp", "Int64"}},
 		atomOrder: []string{"neighborBlock.Timestamp", "blockchain.settings.ValidationTimestamp", "transaction.Timestamp"},
 	},
 	{
 		file: "validatornode/application/validation/transactions_pool.go", fn: "addTransaction", lean: "addTransactionGuards",
-		doc:  "`(*TransactionsPool).addTransaction`: the integer conditions it tests (empty chain, date window)",
-		vars: []gvar{{"lastBlockTimestamp", "Int64"}, {"nextBlockTimestamp", "Int64"}, {"timestamp", "Int64"}, {"currentBlockTimestamp", "Int64"}},
+		doc: "`(*TransactionsPool).addTransaction`: the integer conditions it tests (empty chain, date window)",
 		atoms: map[string]gvar{"pool.blocksManager.LastBlockTimestamp": {"lastTimestamp", "Int64"}, "pool.settings.ValidationTimestamp": {"validationTimestamp", "Int64"},
 			"transaction.Timestamp": {"transactionTimestamp", "Int64"}},
 		atomOrder: []string{"pool.blocksManager.LastBlockTimestamp", "pool.settings.ValidationTimestamp", "transaction.Timestamp"},
 	},
 	{
 		file: "validatornode/application/validation/transactions_pool.go", fn: "Validate", lean: "validateGuards",
-		doc:  "`(*TransactionsPool).Validate`: the integer conditions it tests (genesis, same slot, missing block, date window of a pooled transaction)",
-		vars: []gvar{{"timestamp", "Int64"}, {"lastBlockTimestamp", "Int64"}, {"nextBlockTimestamp", "Int64"}},
+		doc: "`(*TransactionsPool).Validate`: the integer conditions it tests (genesis, same slot, missing block, date window of a pooled transaction)",
 		atoms: map[string]gvar{"pool.blocksManager.LastBlockTimestamp": {"lastTimestamp", "Int64"}, "pool.settings.ValidationTimestamp": {"validationTimestamp", "Int64"},
 			"transaction.Timestamp": {"transactionTimestamp", "Int64"}},
 		atomOrder: []string{"pool.blocksManager.LastBlockTimestamp", "pool.settings.ValidationTimestamp", "transaction.Timestamp"},
+	},
+	{
+		file: "validatornode/application/verification/blockchain.go", fn: "Update", lean: "updateGuards",
+		doc: "`(*Blockchain).Update`: the integer conditions of the fork choice, in source order (host is a candidate, all-forks fallback, " +
+			"shortest / longest bookkeeping, majority threshold, longest filter, oldest recipient, is-different, blocks to confirm); " +
+			"Go `int` values built from `len` are unbounded integers here (`/` is truncated division)",
+		atoms: map[string]gvar{"len(hostBlocks)": {"hostLength", "Int"}, "len(blocksByTarget)": {"candidatesCount", "Int"},
+			"len(blocks)": {"blocksLength", "Int"}, "len(neighbors)": {"neighborsCount", "Int"}, "len(selectedBlocks)": {"selectedLength", "Int"}},
+		atomOrder: []string{"len(hostBlocks)", "len(blocksByTarget)", "len(blocks)", "len(neighbors)", "len(selectedBlocks)"},
 	},
 }
 
 type gtr struct {
 	spec     *gspec
-	typ      map[string]string // Lean name -> type, for everything in scope
-	goVar    map[string]bool
+	typ      map[string]string // integer variable -> Lean type (parameters, typed declarations, integer assignments)
+	writes   map[string]int    // assignments (any form) per identifier in the function body
 	letBound map[string]bool
+	useOrder []string // integer variables in order of first use
+	used     map[string]bool
 	usedAtom map[string]bool
 	lines    []string
 	guards   int
@@ -83,8 +93,12 @@ func (g *gtr) gexpr(e ast.Expr) (s string, typ string, ok bool) {
 		s, typ, ok = g.gexpr(x.X)
 		return "(" + s + ")", typ, ok
 	case *ast.Ident:
-		if g.goVar[x.Name] {
-			return x.Name, g.typ[x.Name], true
+		if t, known := g.typ[x.Name]; known {
+			if !g.used[x.Name] {
+				g.used[x.Name] = true
+				g.useOrder = append(g.useOrder, x.Name)
+			}
+			return x.Name, t, true
 		}
 		return "", "", false
 	case *ast.BasicLit:
@@ -96,6 +110,13 @@ func (g *gtr) gexpr(e ast.Expr) (s string, typ string, ok bool) {
 		if a, found := g.spec.atoms[sel(x.Fun)]; found && len(x.Args) == 0 {
 			g.usedAtom[sel(x.Fun)] = true
 			return a.name, a.typ, true
+		}
+		if id, isId := x.Fun.(*ast.Ident); isId && id.Name == "len" && len(x.Args) == 1 {
+			key := "len(" + sel(x.Args[0]) + ")"
+			if a, found := g.spec.atoms[key]; found {
+				g.usedAtom[key] = true
+				return a.name, a.typ, true
+			}
 		}
 		return "", "", false
 	case *ast.UnaryExpr:
@@ -134,6 +155,12 @@ func (g *gtr) gexpr(e ast.Expr) (s string, typ string, ok bool) {
 				fail(e, "arithmetic on operands of types %s and %s", lt, rt)
 			}
 			return "(" + l + " " + x.Op.String() + " " + r + ")", t, true
+		case token.QUO:
+			t, ok := unify()
+			if !ok || t != "Int" {
+				fail(e, "division on operands of types %s and %s", lt, rt)
+			}
+			return "(Int.tdiv " + l + " " + r + ")", t, true
 		case token.LSS, token.GTR, token.LEQ, token.GEQ:
 			if _, ok := unify(); !ok {
 				fail(e, "comparison of operands of types %s and %s", lt, rt)
@@ -164,45 +191,84 @@ func (g *gtr) gexpr(e ast.Expr) (s string, typ string, ok bool) {
 	return "", "", false
 }
 
+// goIntType maps the Go integer types the translator knows to Lean types
+var goIntType = map[string]string{"int64": "Int64", "uint64": "UInt64", "int": "Int"}
+
+// prepass counts the assignments to every identifier and records the declared integer types (parameters are typed by
+// the caller); function literals (goroutine bodies) are not part of the function's own control flow
+func (g *gtr) prepass(n ast.Node) {
+	ast.Inspect(n, func(n ast.Node) bool {
+		switch x := n.(type) {
+		case *ast.FuncLit:
+			return false
+		case *ast.AssignStmt:
+			for _, l := range x.Lhs {
+				if id, ok := l.(*ast.Ident); ok {
+					g.writes[id.Name]++
+				}
+			}
+		case *ast.IncDecStmt:
+			if id, ok := x.X.(*ast.Ident); ok {
+				g.writes[id.Name] += 2 // a counter: never a single definition
+			}
+		case *ast.RangeStmt:
+			for _, l := range []ast.Expr{x.Key, x.Value} {
+				if id, ok := l.(*ast.Ident); ok {
+					g.writes[id.Name] += 2
+				}
+			}
+		case *ast.ValueSpec:
+			if t, ok := goIntType[sel(x.Type)]; ok {
+				for _, nm := range x.Names {
+					if old, dup := g.typ[nm.Name]; dup && old != t {
+						fail(x, "%s is declared with two integer types", nm.Name)
+					}
+					g.typ[nm.Name] = t
+					if len(x.Values) > 0 {
+						g.writes[nm.Name]++
+					}
+				}
+			}
+		}
+		return true
+	})
+}
+
 func (g *gtr) walk(n ast.Node) {
 	ast.Inspect(n, func(n ast.Node) bool {
 		switch x := n.(type) {
 		case *ast.FuncLit:
 			return false
 		case *ast.AssignStmt:
-			if len(x.Lhs) != 1 || len(x.Rhs) != 1 {
+			if len(x.Lhs) != 1 || len(x.Rhs) != 1 || (x.Tok != token.DEFINE && x.Tok != token.ASSIGN) {
 				return true
 			}
 			id, isId := x.Lhs[0].(*ast.Ident)
-			if !isId || !g.goVar[id.Name] {
-				return true
-			}
-			if x.Tok != token.DEFINE && x.Tok != token.ASSIGN {
-				// `x += e`: from here on x is whatever the loop made of it — it must be an input, not a let
-				if g.letBound[id.Name] {
-					fail(x, "%s is both computed from integer values and accumulated", id.Name)
-				}
+			if !isId {
 				return true
 			}
 			s, t, ok := g.gexpr(x.Rhs[0])
-			if !ok {
-				if g.letBound[id.Name] {
-					fail(x, "%s is assigned both an integer expression and something else", id.Name)
-				}
-				return true // assigned from something that is not integer arithmetic: an input
+			if !ok || t == "Bool" {
+				return true // not integer arithmetic: if the variable is a typed integer it is an input of what reads it
 			}
+			declared, typed := g.typ[id.Name]
 			if t == "lit" {
-				t = g.typ[id.Name]
+				if !typed {
+					return true
+				}
+				t = declared
 				s = "(" + s + " : " + t + ")"
 			}
-			if t != g.typ[id.Name] {
-				fail(x, "%s : %s is assigned a value of type %s", id.Name, g.typ[id.Name], t)
+			if typed && declared != t {
+				fail(x, "%s : %s is assigned a value of type %s", id.Name, declared, t)
 			}
-			if g.letBound[id.Name] {
-				fail(x, "%s is assigned an integer expression twice", id.Name)
+			g.typ[id.Name] = t
+			if g.writes[id.Name] == 1 && !g.used[id.Name] {
+				// the variable's only definition, an integer expression: a `let`
+				g.letBound[id.Name] = true
+				g.lines = append(g.lines, "  let "+id.Name+" : "+t+" := "+s)
 			}
-			g.letBound[id.Name] = true
-			g.lines = append(g.lines, "  let "+id.Name+" : "+t+" := "+s)
+			// otherwise (re-assigned, accumulated, carried through a loop): an input of every condition that reads it
 		case *ast.IfStmt:
 			if s, t, ok := g.gexpr(x.Cond); ok && t == "Bool" {
 				g.lines = append(g.lines, "  let g"+itoa(g.guards)+" : Bool := "+s)
@@ -225,19 +291,19 @@ func itoa(n int) string {
 	return s
 }
 
-func guardDefs(repo string) string {
+var guardFiles = map[string]*ast.File{}
+
+func guardDef(repo string, sp *gspec) string {
 	var sb strings.Builder
-	files := map[string]*ast.File{}
-	for i := range guardSpecs {
-		sp := &guardSpecs[i]
-		f := files[sp.file]
+	{
+		f := guardFiles[sp.file]
 		if f == nil {
 			var err error
 			f, err = parser.ParseFile(fset, filepath.Join(repo, sp.file), nil, 0)
 			if err != nil {
 				fail(nil, "parse: %v", err)
 			}
-			files[sp.file] = f
+			guardFiles[sp.file] = f
 		}
 		var fd *ast.FuncDecl
 		for _, d := range f.Decls {
@@ -248,55 +314,25 @@ func guardDefs(repo string) string {
 		if fd == nil {
 			fail(nil, "%s: method %s not found", sp.file, sp.fn)
 		}
-		g := &gtr{spec: sp, typ: map[string]string{}, goVar: map[string]bool{}, letBound: map[string]bool{}, usedAtom: map[string]bool{}}
-		for _, v := range sp.vars {
-			g.typ[v.name] = v.typ
-			g.goVar[v.name] = true
-		}
-		// a configured variable must exist in the function (parameter or declared local) with the configured type
-		declared := map[string]string{}
+		g := &gtr{spec: sp, typ: map[string]string{}, writes: map[string]int{}, letBound: map[string]bool{}, used: map[string]bool{},
+			usedAtom: map[string]bool{}}
 		for _, p := range fd.Type.Params.List {
-			for _, nm := range p.Names {
-				declared[nm.Name] = sel(p.Type)
-			}
-		}
-		ast.Inspect(fd.Body, func(n ast.Node) bool {
-			switch x := n.(type) {
-			case *ast.AssignStmt:
-				if x.Tok == token.DEFINE {
-					for _, l := range x.Lhs {
-						if id, ok := l.(*ast.Ident); ok {
-							if _, dup := declared[id.Name]; !dup {
-								declared[id.Name] = ":="
-							}
-						}
-					}
-				}
-			case *ast.ValueSpec:
-				for _, nm := range x.Names {
-					declared[nm.Name] = sel(x.Type)
+			if t, ok := goIntType[sel(p.Type)]; ok {
+				for _, nm := range p.Names {
+					g.typ[nm.Name] = t
 				}
 			}
-			return true
-		})
-		goType := map[string]string{"Int64": "int64", "UInt64": "uint64"}
-		for _, v := range sp.vars {
-			d, ok := declared[v.name]
-			if !ok {
-				fail(fd, "%s no longer has a variable %s", sp.fn, v.name)
-			}
-			if d != ":=" && d != goType[v.typ] {
-				fail(fd, "%s: %s is declared %s, expected %s", sp.fn, v.name, d, goType[v.typ])
-			}
 		}
+		g.prepass(fd.Body)
 		g.walk(fd.Body)
 		if g.guards == 0 {
 			fail(fd, "%s tests no integer condition any more", sp.fn)
 		}
+		// parameters: the integer variables that are read and are not `let`s, in order of first use; then the atoms
 		var params []string
-		for _, v := range sp.vars {
-			if !g.letBound[v.name] {
-				params = append(params, "("+v.name+" : "+v.typ+")")
+		for _, v := range g.useOrder {
+			if !g.letBound[v] {
+				params = append(params, "("+v+" : "+g.typ[v]+")")
 			}
 		}
 		for _, a := range sp.atomOrder {
